@@ -459,6 +459,57 @@ func c01Transformers() []transformer {
 			}
 			return false
 		}},
+		{"relocate-under-a-twin-of-the-root", func(a *atk) bool {
+			// the signed assertion(s) moved under an inner element that repeats the root's qualified name and its
+			// attributes (same ID, or both without one): it looks like the root, it is not the root
+			s := signedAssertion(a)
+			if s == nil || sim.SigOf(a.root) != nil {
+				return false
+			}
+			w := etree.NewElement(a.root.Tag)
+			w.Space = a.root.Space
+			for _, at := range a.root.Attr {
+				if at.Space != "xmlns" && at.Key != "xmlns" || a.r.IntN(2) == 0 {
+					w.CreateAttr(at.FullKey(), at.Value)
+				}
+			}
+			if a.r.IntN(3) == 0 {
+				w.RemoveAttr("ID")
+				a.root.RemoveAttr("ID")
+			}
+			sim.ReplaceChild(s, w)
+			w.AddChild(s)
+			if a.r.IntN(2) == 0 {
+				for _, other := range a.assertions() {
+					a.root.RemoveChild(other)
+					w.AddChild(other)
+				}
+			}
+			a.mustReject = "every assertion sits under an inner element that merely repeats the root's name and ID"
+			if len(a.assertions()) > 0 || len(sim.ChildrenNS(a.root, sim.NSA, "EncryptedAssertion")) > 0 {
+				a.mustReject = ""
+			}
+			return true
+		}},
+		{"plain-forgery-reusing-the-id-of-an-encrypted-assertion", func(a *atk) bool {
+			// the IdP's genuine assertion travels encrypted; the attacker, who obtained (or produced) that ciphertext,
+			// adds a plain unsigned assertion carrying the same ID as the one hidden inside it
+			var ids []string
+			for _, ar := range a.g.Rec.Assertions {
+				if ar.Enc != nil && ar.ID != nil {
+					ids = append(ids, *ar.ID)
+				}
+			}
+			encs := sim.ChildrenNS(a.root, sim.NSA, "EncryptedAssertion")
+			if len(ids) == 0 || len(encs) == 0 {
+				return false
+			}
+			e := a.evil(0, 0, nil)
+			sim.SetID(e, ids[a.r.IntN(len(ids))])
+			sim.InsertRelative(encs[0], e, a.r.IntN(3) == 0)
+			a.note("id-of-encrypted")
+			return true
+		}},
 		{"relocate-signed-assertion-deeper", func(a *atk) bool {
 			s := signedAssertion(a)
 			if s == nil {
@@ -799,7 +850,13 @@ func runC01(c *mon.Ctx) {
 		var resp *types.Response
 		var ai *saml2.AssertionInfo
 		var verr, aerr error
+		primed := r.IntN(3) == 0
 		pv, stack = mon.Guard(func() {
+			if primed {
+				// the same provider has just validated the genuine message the attack was built from: whatever it
+				// remembers about those signatures must not vouch for different content
+				sp.ValidateEncodedResponse(sim.Encode(xml, g.Level))
+			}
 			resp, verr = sp.ValidateEncodedResponse(enc)
 			ai, aerr = sp.RetrieveAssertionInfo(enc)
 		})
